@@ -18,6 +18,7 @@ import (
 	"github.com/LiskHQ/lisk-engine/pkg/blockchain"
 	"github.com/LiskHQ/lisk-engine/pkg/codec"
 	"github.com/LiskHQ/lisk-engine/pkg/consensus"
+	"github.com/LiskHQ/lisk-engine/pkg/consensus/certificate"
 	"github.com/LiskHQ/lisk-engine/pkg/consensus/contradiction"
 	"github.com/LiskHQ/lisk-engine/pkg/consensus/liskbft"
 	"github.com/LiskHQ/lisk-engine/pkg/crypto"
@@ -815,36 +816,39 @@ func runABI() (rec abiRec) {
 // ---------------------------------------------------------------------------------------- acceptance
 
 type accRec struct {
-	K         string            `json:"k"`
-	NVal      int               `json:"nval"`
-	Pre       int               `json:"pre"`     // blocks on the chain before forging
-	Events    int               `json:"events"`  // scripted events of the block execution
-	Rounds    int               `json:"rounds"`  // consecutive forge+process rounds
-	Senders   int               `json:"senders"` // transaction pool: senders x PerSender transactions
-	PerSender int               `json:"persender"`
-	Limit     int               `json:"limit"`     // Genesis.MaxTransactionsSize given to the generator (0 = 15360)
-	BadEvery  int               `json:"badevery"`  // every n-th pooled transaction fails verification at generation time (0 = none)
-	Agg       bool              `json:"agg"`       // all validators certify the precommitted height first: a non-empty aggregate commit is available
-	ExecMix   bool              `json:"execmix"`   // pooled transactions execute as success / fail (included) / invalid (excluded), with and without events
-	NextVals  bool              `json:"nextvals"`  // the application returns a new validator set and thresholds from AfterTransactionsExecute
-	InvalidIn []int             `json:"invalidin"` // transactions scripted to execute as invalid found in the block
-	Fields    []map[string]bool `json:"fields"`    // per round: header field == value recomputed independently by the harness
-	Hdr       [][3]uint32       `json:"hdr"`       // per round: height, maxHeightPrevoted, maxHeightGenerated of the generated header
-	TipH      []uint32          `json:"tiph"`      // per round: tip height before forging
-	NodeMhp   []uint32          `json:"nodemhp"`
-	Disk      []*[3]uint32      `json:"disk"`   // per round: the generator's persisted info before forging (height, mhp, mhg)
-	AggLen    []int             `json:"agglen"` // per round: len(AggregationBits)
-	Forged    []bool            `json:"forged"`
-	Accepted  []bool            `json:"accepted"`
-	TipIs     []bool            `json:"tipis"`
-	NTx       []int             `json:"ntx"`     // transactions in the generated block
-	Payload   []int             `json:"payload"` // their total size
-	BadIn     []int             `json:"badin"`   // scripted-to-fail transactions found in the block
-	AggH      []uint32          `json:"aggh"`    // aggregate commit height of the generated header
-	Pooled    int               `json:"pooled"`  // processable transactions offered by the pool
-	Errs      []string          `json:"errs,omitempty"`
-	Panic     string            `json:"panic,omitempty"`
-	Fail      string            `json:"fail,omitempty"`
+	K             string            `json:"k"`
+	NVal          int               `json:"nval"`
+	Pre           int               `json:"pre"`     // blocks on the chain before forging
+	Events        int               `json:"events"`  // scripted events of the block execution
+	Rounds        int               `json:"rounds"`  // consecutive forge+process rounds
+	Senders       int               `json:"senders"` // transaction pool: senders x PerSender transactions
+	PerSender     int               `json:"persender"`
+	Limit         int               `json:"limit"`         // Genesis.MaxTransactionsSize given to the generator (0 = 15360)
+	BadEvery      int               `json:"badevery"`      // every n-th pooled transaction fails verification at generation time (0 = none)
+	Agg           bool              `json:"agg"`           // all validators certify the precommitted height first: a non-empty aggregate commit is available
+	ExecMix       bool              `json:"execmix"`       // pooled transactions execute as success / fail (included) / invalid (excluded), with and without events
+	NextVals      bool              `json:"nextvals"`      // the application returns a new validator set and thresholds from AfterTransactionsExecute
+	PendingParams bool              `json:"pendingparams"` // a BFT parameter change at height H is not yet certified, maxHeightPrecommitted >= H, single commits for H-1 and H are pooled
+	ParamsH       uint32            `json:"paramsh"`       // H: the height from which the changed parameters are in force (0 = none)
+	Precommitted  uint32            `json:"precommitted"`  // the node's maxHeightPrecommitted before forging
+	InvalidIn     []int             `json:"invalidin"`     // transactions scripted to execute as invalid found in the block
+	Fields        []map[string]bool `json:"fields"`        // per round: header field == value recomputed independently by the harness
+	Hdr           [][3]uint32       `json:"hdr"`           // per round: height, maxHeightPrevoted, maxHeightGenerated of the generated header
+	TipH          []uint32          `json:"tiph"`          // per round: tip height before forging
+	NodeMhp       []uint32          `json:"nodemhp"`
+	Disk          []*[3]uint32      `json:"disk"`   // per round: the generator's persisted info before forging (height, mhp, mhg)
+	AggLen        []int             `json:"agglen"` // per round: len(AggregationBits)
+	Forged        []bool            `json:"forged"`
+	Accepted      []bool            `json:"accepted"`
+	TipIs         []bool            `json:"tipis"`
+	NTx           []int             `json:"ntx"`     // transactions in the generated block
+	Payload       []int             `json:"payload"` // their total size
+	BadIn         []int             `json:"badin"`   // scripted-to-fail transactions found in the block
+	AggH          []uint32          `json:"aggh"`    // aggregate commit height of the generated header
+	Pooled        int               `json:"pooled"`  // processable transactions offered by the pool
+	Errs          []string          `json:"errs,omitempty"`
+	Panic         string            `json:"panic,omitempty"`
+	Fail          string            `json:"fail,omitempty"`
 }
 
 type captureCons struct {
@@ -953,6 +957,46 @@ func runAcc(rec accRec) accRec {
 		if r := n.ProcessValidated(b, false); !r.OK() {
 			rec.Fail = fmt.Sprintf("pre block %d: %v %s", i, r.Err, r.Panic)
 			return rec
+		}
+	}
+	if rec.PendingParams {
+		// block P changes the certificate threshold: the new parameters are in force from H = P+1; then enough blocks for
+		// maxHeightPrecommitted to reach H; nothing is certified yet (maxHeightCertified = 0)
+		lv := []*labi.Validator{}
+		for _, v := range n.Vals {
+			lv = append(lv, v.Labi())
+		}
+		total := uint64(len(lv))
+		keep := n.ABI.S
+		n.ABI.S = &exh.Script{NextValidators: lv, PreCommitThreshold: total*2/3 + 1, CertificateThreshold: total}
+		bp := n.NextValid(exh.Build{})
+		if r := n.ProcessValidated(bp, false); !r.OK() {
+			rec.Fail = fmt.Sprintf("parameter-change block: %v %s", r.Err, r.Panic)
+			return rec
+		}
+		n.ABI.S = keep
+		rec.ParamsH = bp.Header.Height + 1
+		for i := 0; i < 20; i++ {
+			if _, prec, _ := n.Heights(); prec >= rec.ParamsH {
+				break
+			}
+			if r := n.ProcessValidated(n.NextValid(exh.Build{}), false); !r.OK() {
+				rec.Fail = fmt.Sprintf("block after the parameter change: %v %s", r.Err, r.Panic)
+				return rec
+			}
+		}
+		_, prec, cert := n.Heights()
+		rec.Precommitted = prec
+		if prec < rec.ParamsH || cert >= rec.ParamsH-1 {
+			rec.Fail = fmt.Sprintf("scenario not reached: precommitted %d certified %d H %d", prec, cert, rec.ParamsH)
+			return rec
+		}
+		// single commits of every validator for H-1 and for H are in the pool
+		for _, h := range []uint32{rec.ParamsH - 1, rec.ParamsH} {
+			hd := n.HeaderAt(h)
+			for _, v := range n.Vals {
+				n.Exec.VerifC06Pool().Add(certificate.NewSingleCommit(hd, v.Addr, n.Opt.ChainID, v.BLS.PrivateKey))
+			}
 		}
 	}
 	seedInfos(env)
@@ -1089,7 +1133,12 @@ func runAcc(rec accRec) accRec {
 		}
 		fields["aggregationBitsLen"] = len(hd.AggregateCommit.AggregationBits) == wantBits
 		// a pooled commit was made available before the first round: it must be used there (afterwards it is certified already)
-		fields["aggregateCommitPresent"] = !rec.Agg || round > 0 || len(hd.AggregateCommit.CertificateSignature) > 0
+		// with a parameter change pending at H the certifiable range ends at H-1 (computed here from the scenario, not from
+		// the node): the pooled commit for H-1 must be the one sealed in the first round
+		if rec.PendingParams && round == 0 {
+			fields["aggregateCommitBound"] = hd.AggregateCommit.Height == rec.ParamsH-1
+		}
+		fields["aggregateCommitPresent"] = !(rec.Agg || rec.PendingParams) || round > 0 || len(hd.AggregateCommit.CertificateSignature) > 0
 		rec.AggLen = append(rec.AggLen, len(hd.AggregateCommit.AggregationBits))
 		rec.Hdr = append(rec.Hdr, [3]uint32{hd.Height, hd.MaxHeightPrevoted, hd.MaxHeightGenerated})
 		rec.TipH = append(rec.TipH, tipBefore.Height)
@@ -1145,6 +1194,7 @@ func genAcc(o *hx.Out, r *hx.Rng, n int) {
 		{NVal: 4, Pre: 3, Rounds: 2, Senders: 4, PerSender: 3, ExecMix: true},         // execute success / fail / invalid, with and without events
 		{NVal: 4, Pre: 3, Rounds: 1, Senders: 2, PerSender: 2, NextVals: true},        // the block changes the validator set
 		{NVal: 8, Pre: 26, Rounds: 1, Senders: 1, PerSender: 1, Agg: true},            // validator count a multiple of 8: length of the aggregation bits
+		{NVal: 4, Pre: 6, Rounds: 1, Senders: 1, PerSender: 1, PendingParams: true},   // uncertified parameter change, commits pooled around it
 	}
 	for i := 0; i < n; i++ {
 		if i < len(fixed) {
